@@ -119,6 +119,17 @@ theorem filter_driver_is_reference (isSimple : Bool) (level il hev : Nat) (inner
   Vp8LFProof.filterMb_is_doFilter isSimple level il hev inner W CW mbx mby p
 
 
+/-- the whole frame: macroblocks in raster order, each filtered as the reference decoder's
+    `DoFilter` does with the parameters of `C02.filter_params_eq` -/
+theorem filter_frame_is_reference (isSimple : Bool) (sharp frameLevel mbw mbh : Nat) (mbs : Nat → Bool × Bool) (p : Vp8LF.Planes) :
+    Vp8LF.filterFrame isSimple sharp frameLevel mbw mbh mbs p =
+      (List.range (mbw * mbh)).foldl (fun p k =>
+        LibwebpLF.doFilter isSimple (Vp8K.filterParams frameLevel sharp false false 0 0 0 (mbs k).1).1
+          (Vp8K.filterParams frameLevel sharp false false 0 0 0 (mbs k).1).2.1 (Vp8K.filterParams frameLevel sharp false false 0 0 0 (mbs k).1).2.2
+          ((mbs k).1 || (mbs k).2) (mbw * 16) (mbw * 8) (k % mbw) (k / mbw) p) p := by
+  unfold Vp8LF.filterFrame
+  simp only [Vp8LFProof.filterMb_is_doFilter]
+
 /-! ### residue addition -/
 
 /-- **`add_residue` is `clamp(prediction + residue)`.** For every workspace, residue block (any
